@@ -49,6 +49,49 @@ def check(ctx):
     check_codec(ctx)
     check_lengths(ctx)
     check_distances(ctx)
+    check_label_numbering(ctx, 'R2')
+
+
+def check_label_numbering(ctx, rule):
+    """Every helper of rdf.py that numbers the site labels must derive the list of unique labels in the same way: the encoder
+    (label -> index) and the decoder (index -> state name) are separate functions and only agree when the two lists are identical."""
+    forms = {}
+    for q, f in sorted(ctx.p.functions.items()):
+        if f.module.name != 'gemdat.rdf':
+            continue
+        it = None
+        for n in ast.walk(f.node):
+            if not isinstance(n, ast.Call):
+                continue
+            fn = norm_text(n.func)
+            inner = None
+            if fn in ('list', 'sorted', 'tuple') and n.args and isinstance(n.args[0], ast.Call) and norm_text(n.args[0].func) in ('set', 'dict.fromkeys', 'frozenset') \
+                    and n.args[0].args:
+                inner = n.args[0].args[0]
+                form = f'{fn}({norm_text(n.args[0].func)}(labels))'
+            elif fn in ('np.unique', 'numpy.unique', 'sorted') and n.args and fn != 'sorted':
+                inner = n.args[0]
+                form = 'np.unique(labels)'
+            if inner is None:
+                continue
+            it = it or ctx.entry(q)
+            v = it.value_of(inner)
+            is_labels = v is not None and ((v.indexed_by == 'SITE') or (v.elem is not None and v.elem.label) or (v.store or '').endswith('.labels')
+                                          or bool(v.origin and any(o.endswith('.labels') for o in v.origin)))
+            if not is_labels and 'labels' not in norm_text(inner):
+                continue
+            forms.setdefault(form, []).append((f, n))
+    if not forms:
+        ctx.ob(rule, 'gemdat.rdf', 'unique label lists', None, 'derivation of the unique label list not found in rdf.py')
+        return
+    if len(forms) == 1:
+        form, sites = next(iter(forms.items()))
+        ctx.ob(rule, sites[0][0], f'unique labels = {form}', True, f'one derivation shared by {len(sites)} use(s): encoder and decoder number the labels alike')
+    else:
+        desc = '; '.join(f'{k} in {v[0][0].name}' for k, v in sorted(forms.items()))
+        f0, n0 = sorted(forms.items())[0][1][0]
+        ctx.ob(rule, f0, n0, False, f'the unique label list is derived differently in different helpers ({desc}): the label numbers written by the encoder are '
+                                    f'decoded with another numbering, so the frames of one state are filed under the name of another (depends on the order of the site labels)')
 
 
 def check_lookup(ctx):
